@@ -12,7 +12,7 @@ EXPLANATION = (
     "must be followed on every normal path by update_outcomes() on that object (or a sweep over the owning mapping). R16b key discipline: every key used on a `covouts` "
     "mapping is (parameter, population) - decided with name sorts inferred from what a variable ranges over. R16c: an except handler does not read a local whose only "
     "definitions are the failed assignment itself (or a previous loop iteration). R16d writer/reader tables: row labels and column headers written to program books, the "
-    "y-factor key, the workbook category strings and the population sheet headers are the ones the readers recognise, mapped to the same attributes. R16e: load_calibration "
+    "y-factor key, the workbook category strings and the population sheet headers are the ones the readers recognise, mapped to the same attributes. R16g: a writer that resolves a tri-state column flag (None = decide from the data) into a local uses that local for every later decision, never the raw attribute, so header and cells agree. R16h: the table readers only ever set those flags to True or None (never False), so a value of that kind entered after loading is still written. R16e: load_calibration "
     "skips unknown entries and leaves missing ones untouched. Numeric fidelity and equality of simulations after round trips are not decided."
 )
 
@@ -25,6 +25,8 @@ def run(ctx):
     ctx.each(r16c, ctx, repo)
     ctx.each(r16d, ctx, repo)
     ctx.each(r16e, ctx, repo)
+    ctx.each(r16g, ctx, repo)
+    ctx.each(r16h, ctx, repo)
     ctx.each(informational, ctx, repo)
 
 
@@ -406,3 +408,70 @@ def informational(ctx, repo):
         ss = ci.methods.get("__setstate__")
         mig = ss is not None and any(isinstance(x, ast.Call) and astq.is_name(x.func, "migrate") for x in own_nodes(ss.node))
         ctx.note("R16f", "%s.__setstate__ %s migrate() on load" % (c, "calls" if mig else "does NOT call"))
+
+
+# ---------------------------------------------------------------------------------------------- R16g / R16h
+def _resolved_flags(fi):
+    """{attribute: (local name, stmt)} for  local = self.A if self.A is not None else <data-driven>"""
+    me = K.self_name(fi)
+    out = {}
+    for s_ in own_nodes(fi.node):
+        if isinstance(s_, ast.Assign) and len(s_.targets) == 1 and isinstance(s_.targets[0], ast.Name) and isinstance(s_.value, ast.IfExp):
+            v = s_.value
+            t = ast.unparse(v.test)
+            if isinstance(v.body, ast.Attribute) and astq.is_name(v.body.value, me) and t == "%s.%s is not None" % (me, v.body.attr):
+                out[v.body.attr] = (s_.targets[0].id, s_)
+    return out
+
+
+def r16g(ctx, repo):
+    ctx.rule("R16g", "column decisions in the table writers: once `write_x = self.write_x if self.write_x is not None else <any data>` is computed, every later decision tests the local `write_x`; testing the raw attribute (None is falsy) makes the header and the cells disagree")
+    n = 0
+    for q in ("TimeDependentConnections.write", "TimeDependentValuesEntry.write"):
+        fi = repo.func("excel", q)
+        me = K.self_name(fi)
+        flags = _resolved_flags(fi)
+        ctx.require(len(flags) >= 3, "R16g: %s: fewer resolved column flags (%d) than confirmed (3)" % (q, len(flags)))
+        for attr, (local, st) in sorted(flags.items()):
+            n += 1
+            raw = []
+            for node in own_nodes(fi.node):
+                test = None
+                if isinstance(node, (ast.If, ast.While, ast.IfExp)):
+                    test = node.test
+                if test is None or node.lineno <= st.lineno:
+                    continue
+                if any(isinstance(x, ast.Attribute) and x.attr == attr and astq.is_name(x.value, me) for x in ast.walk(test)):
+                    raw.append(node)
+            if raw:
+                ctx.fail("R16g", fi, raw[0], "%s decides the `%s` column of the header from the resolved local `%s` (data-driven when the flag is None) but %d later test(s) use the raw attribute `%s.%s`: for a table whose flag is None (read from a sheet that lacked the column) the header has the column and the cells are never written, so the value is lost on a round trip" % (q, attr.replace("write_", ""), local, len(raw), me, attr), stmt_text="raw-flag:%s" % attr)
+            else:
+                ctx.ok("R16g", fi, "`%s` is used for every decision after it is resolved" % local, st)
+    ctx.require(n >= 6, "R16g: fewer resolved flags (%d) than confirmed (6)" % n)
+
+
+def _value_domain(e):
+    """Possible constant values of a flag expression: subset of {True, False, None}, or None if not decidable."""
+    if isinstance(e, ast.Constant) and (e.value is None or isinstance(e.value, bool)):
+        return {e.value}
+    if isinstance(e, ast.IfExp):
+        a, b = _value_domain(e.body), _value_domain(e.orelse)
+        return (a | b) if a is not None and b is not None else None
+    if isinstance(e, (ast.Compare, ast.BoolOp)) or (isinstance(e, ast.UnaryOp) and isinstance(e.op, ast.Not)) or (isinstance(e, ast.Call) and ast.unparse(e.func) in ("bool", "any", "all")):
+        return {True, False}
+    return None
+
+
+def r16h(ctx, repo):
+    ctx.rule("R16h", "reader side of the tri-state column flags: from_rows / from_tables assign only True or None to write_units / write_uncertainty / write_assumption")
+    n = 0
+    for q in ("TimeDependentConnections.from_tables", "TimeDependentValuesEntry.from_rows"):
+        fi = repo.func("excel", q)
+        for s_ in own_nodes(fi.node):
+            if isinstance(s_, ast.Assign) and isinstance(s_.targets[0], ast.Attribute) and s_.targets[0].attr in ("write_units", "write_uncertainty", "write_assumption"):
+                n += 1
+                dom = _value_domain(s_.value)
+                if dom is None:
+                    raise AnalysisError("R16h: cannot decide the value domain of `%s`" % norm(s_))
+                ctx.check(False not in dom, "R16h", fi, s_, "flag is True or None", "`%s` can set the flag to False: the writer then never emits that column again, so an uncertainty / constant / unit entered after loading a sheet that lacked the column is silently dropped when the book is saved" % norm(s_))
+    ctx.require(n >= 6, "R16h: fewer flag assignments in the readers (%d) than confirmed (6)" % n)
